@@ -232,7 +232,11 @@ def apply_op(b, op, inherit=True):
             b.doc.add_bundle(nb)
             b.stats["op:add_bundle"] += 1
         else:
-            nb = b.doc.bundle(spell(b, 0, name))
+            resolved = b.doc.valid_qualified_name(spell(b, 0, name))
+            if not b.no_exclude and resolved is not None and any(str(x.identifier) == str(resolved) for x in b.doc.bundles):
+                b.stats["excluded_by_finding:F-C01-1"] += 1   # same printed identifier as an attached free bundle
+                return
+            nb = b.doc.bundle(resolved if resolved is not None else spell(b, 0, name))
         b.requested.append({nb.identifier.namespace.prefix or "dn"})
         b.scopes.append(nb)
         b.scope_ids.append(uri)
